@@ -30,6 +30,8 @@ if os.path.exists(demo_go):
     runpat = '^(' + '|'.join(names) + ')$'
     shutil.copy(demo_go, os.path.join(wt, 'zz_seed_demo_test.go'))
     democmd = "go test %s-vet=off -count=1 -run '%s' ." % (os.environ.get('DEMO_FLAGS', '') + ' ' if os.environ.get('DEMO_FLAGS') else '', runpat)
+    if os.environ.get('DEMO_PREFIX'):
+        democmd = os.environ['DEMO_PREFIX'] + ' ' + democmd  # e.g. GOARCH=386 for a change that shows on 32-bit builds only
     good = good and step('demo fails with patch', democmd, False)
     run('git apply -R ' + patch)
     good = good and step('demo passes without patch', democmd, True)
